@@ -64,11 +64,20 @@ theorem C17_map (limit pre : Nat) (progs : List (Nat × List Op)) (σ : List Nat
 
 /-! ## Count-then-create inside one mutex (per-client quotas) -/
 
-/-- **C17, quotas, one service instance.** If the admission counts, checks and creates inside the
-mutex of the service instance (`mutex`, `early`, plain insert), then for any number of concurrent
-requests to that ONE instance `I`, any number of storage operations inside the critical section and
-every interleaving at storage-operation granularity (including releases that do not take the
-mutex): the quota holds after every step and a refused request changes nothing. -/
+/-- **C17, quotas, one service instance.** Serialisation hypothesis (this is ALL the proof uses about
+the locking): every quota-checked creation of the instance runs `Lock(); count; check; create; Unlock()`
+on ONE mutex of the service instance (`mutex`, `early`, plain insert; pinned to the source by
+`skel_CreateConnectionCode` / `skel_ActivateConnectionCode`: a single `codeQuotaMu` / `mappingQuotaMu`
+field locked before the count, unlocked by `defer`), and `sync.Mutex` excludes.  `Lock()` on a held
+mutex queues the request (`PC.waiting`); `Unlock()` hands the mutex to the first waiter (the order only
+decides WHICH waiter the model advances; the invariant does not depend on it).  Then for any number of
+concurrent requests to that ONE instance `I` — of this client (`acquire`) and of other clients (`other`,
+same mutex, not counted) —, any number of storage operations inside the critical section and every
+interleaving at storage-operation granularity (including releases that do not take the mutex): the
+quota holds after every step and a refused request changes nothing.  A scheme with one mutex per
+client whose map entry is dropped before `Unlock` is NOT an instance of this protocol (three requests:
+holder, waiter, newcomer on a fresh mutex) — such a change breaks the skeleton pins and is found by the
+N >= 3 racer schedules of the harness. -/
 theorem C17_main_mutex (P : Proto) (limit pre I : Nat) (progs : List (List Op)) (σ : List Nat)
     (hm : P.mutex = true) (he : P.early = true) (hf : P.final = .plain)
     (hpre : capOk P.zeroUnl limit pre = true) :
@@ -143,7 +152,8 @@ theorem C17_refusal_of_holds (zu : Bool) (limit pre : Nat) (before after : List 
 
 /-- In the model a refusal touches neither the occupancy nor the item counter. -/
 theorem C17_refuse_stateless (P : Proto) (c : Cfg) (tid : Nat) :
-    (refuseCfg P c tid).occ = c.occ ∧ (refuseCfg P c tid).next = c.next := ⟨rfl, rfl⟩
+    (refuseCfg P c tid).occ = c.occ ∧ (refuseCfg P c tid).next = c.next :=
+  ⟨unlockCfg_occ P _ _, unlockCfg_next P _ _⟩
 
 /-! ## Defects: the protocols as found, and what remains -/
 
@@ -406,11 +416,21 @@ example :
     (run protoCtrl 2 (init 2 [(0, [.acquire, .release]), (0, [.acquire])]) [0, 1, 0]).trace
       = [.adm 0 2 (some 0) 2, .adm 1 3 (some 1) 2, .rel 0 2 1] := by decide
 
-/-- The code quota: the second request waits for the mutex, then counts 2 of 2 and is refused. -/
+/-- The code quota: the second request queues up in `Lock()`, is handed the mutex by the `Unlock()`
+of the first, then counts 2 of 2 and is refused. -/
 example :
-    (run protoCode 2 (init 1 [(0, [.acquire]), (0, [.acquire])]) [0, 1, 0, 0, 0, 0, 0, 0, 1, 1, 1, 1]).trace
+    (run protoCode 2 (init 1 [(0, [.acquire]), (0, [.acquire])]) [0, 1, 0, 0, 0, 0, 0, 0, 1, 1, 1]).trace
       = [.stp 0 1, .blk 1 1, .stp 0 1, .stp 0 1, .stp 0 1, .stp 0 1, .stp 0 1, .adm 0 1 none 2,
-         .stp 1 2, .stp 1 2, .stp 1 2, .ref 1 false 2] := by decide
+         .stp 1 2, .stp 1 2, .ref 1 false 2] := by decide
+
+/-- Three activations of one client at occupancy `limit-2` plus one of another client, the schedule
+of the seeded regression (A holds, B queued, A leaves, B counts, C arrives, B creates, C counts): the
+third request stays queued behind B and is refused afterwards. -/
+example :
+    (run protoMapq 2 (init 0 [(0, [.acquire]), (0, [.acquire]), (0, [.acquire]), (0, [.other])])
+        [0, 1, 0, 0, 1, 2, 3, 2, 1, 2, 3, 3]).trace
+      = [.stp 0 0, .blk 1 0, .stp 0 0, .adm 0 0 none 1, .stp 1 1, .blk 2 1, .blk 3 1, .blk 2 1, .adm 1 1 none 2,
+         .ref 2 false 2, .stp 3 2, .stp 3 2] := by decide
 
 /-- `holds` rejects exceeding the cap, a refusal that changed the occupancy, a refusal that changed
 other state, a wrong final state; it accepts unlimited growth when 0 means unlimited. -/
